@@ -15,7 +15,8 @@ META = {
     'level': 'exploration',
     'engine': 'N',
     'technique': 'bounded-exhaustive string enumeration, output read back by an independent CQL lexer',
-    'text': 'All strings of length <=4 (quick) / <=5 (thorough) over {a,A,z,0,_,",\',space,newline,e-acute,emoji}, '
+    'text': 'All strings of length <=4 (quick) / <=5 (thorough) over {a,A,z,0,_,",\',space,newline,e-acute,emoji,arabic-indic digit three} '
+            '(cql_quote also with a str subclass whose str() differs from its value, length <=3), '
             'the empty string and every reserved/unreserved CQL keyword (Cassandra and DSE lists) in lower, UPPER and '
             'Capitalised form are given to protect_name, protect_names, maybe_escape_name, escape_name, is_valid_name, '
             'protect_value and cql_quote; the independent lexer must read each identifier result as exactly one '
@@ -26,7 +27,17 @@ META = {
     'design_ref': 'C27',
 }
 
-ALPHABET = ['a', 'A', 'z', '0', '_', '"', "'", ' ', '\n', 'é', '\U0001F600']
+ALPHABET = ['a', 'A', 'z', '0', '_', '"', "'", ' ', '\n', 'é', '\U0001F600', '\u0663']   # U+0663: a decimal digit that is not ASCII
+
+
+class Loud(str):
+    """a str subclass whose str()/format() text differs from its value (as str-based Enums do): the text that
+    reaches Cassandra must still be the value"""
+    def __str__(self):
+        return 'LOUD'
+
+    def __format__(self, spec):
+        return 'LOUD'
 
 
 def words(maxlen):
@@ -159,13 +170,19 @@ def run_one(part, s, which=None):
         elif ok:
             part.outcome(('is_valid_name', cls, 'says-quote'))
     for fn, f in (('protect_value', md.protect_value), ('cql_quote', enc.cql_quote)):
-        if which and which != fn:
+        if which and which.split('/')[0] != fn:
             continue
         part.count('evaluations')
         ok, out = call(fn, f, s)
         if ok:
             r = check_value(part, fn, s, out)
             part.outcome((fn, 'has-quote' if "'" in s else 'no-quote', r))
+        if fn == 'cql_quote' and len(s) <= 3:
+            part.count('evaluations')
+            ok, out = call(fn, f, Loud(s))
+            if ok:
+                r = check_value(part, fn + '/str-subclass', s, out)
+                part.outcome((fn, 'str-subclass', r))
     if cls not in ('plain-lower',):
         part.mark_nontrivial(s)
 
